@@ -13,7 +13,18 @@ NOFACTS = {"parse_ok": False, "n_roots": 0, "n_decl": 0, "unbound": [], "root": 
 _BENIGN = {}
 
 
-def facts(xform):
+def expected_form_id(wb):
+    """the form id the author set on the settings sheet (form_id / id_string), or None when it is left to the fallbacks"""
+    found = set()
+    for sh in (wb or {}).get("sheets", []):
+        if sh["name"].strip().lower() == "settings" and sh["rows"]:
+            for h, v in zip(sh["header"], sh["rows"][0]):
+                if isinstance(h, str) and h.strip().lower() in ("form_id", "id_string") and isinstance(v, str) and v.strip():
+                    found.add(v.strip())
+    return found.pop() if len(found) == 1 else None      # (both aliases with different values: which one wins is not C01's subject)
+
+
+def facts(xform, form_id=None):
     from harness import project
 
     f = dict(NOFACTS)
@@ -24,7 +35,9 @@ def facts(xform):
             root = project.parse(xform)
             sk = project.skeleton(root)
             f.update(root=sk["root"], n_title=sk["n_title"], n_model=sk["n_model"], n_body=sk["n_body"], first_instance_attrs=sk["first_instance_attrs"],
-                     first_instance_nchild=sk["first_instance_nchild"], primary_root_has_id=sk["primary_root_has_id"], primary_is_first_instance=sk["primary_is_first_instance"])
+                     first_instance_nchild=sk["first_instance_nchild"],
+                     # "carrying the form id": present, and equal to the id the author set when there is one
+                     primary_root_has_id=sk["primary_root_has_id"] and (form_id is None or sk.get("primary_root_id") == form_id), primary_is_first_instance=sk["primary_is_first_instance"])
         except Exception as e:
             # expat accepted the document but ElementTree cannot read it (its own namespace separator '}' occurs in a
             # namespace name): the projection is unavailable, which is the harness's limit, not a fact about the document
@@ -57,7 +70,8 @@ def run_doc(job):
     ev = {"ev": "doc", "status": rc["status"] if rc["status"] == rp["status"] else f"{rc['status']}/{rp['status']}",
           "c01": {"c": dict(NOFACTS), "p": dict(NOFACTS)}, "channels": [], "classes": list(job.get("classes") or []), "default_place": "n/a", "skeleton_same": True, "structure_equal": True, "texts_c": [], "texts_p": []}
     if rc["status"] == "ok" and rp["status"] == "ok":
-        ev["c01"] = {"c": facts(rc["xform"]), "p": facts(rp["xform"])}
+        fid = expected_form_id(wb) if isinstance(wb, dict) else None
+        ev["c01"] = {"c": facts(rc["xform"], fid), "p": facts(rp["xform"], fid)}
         if ev["c01"]["c"]["error"].startswith("projection_unavailable") or ev["c01"]["p"]["error"].startswith("projection_unavailable"):
             ev["status"] = "projection_unavailable"
         okc, okp = ev["c01"]["c"]["parse_ok"], ev["c01"]["p"]["parse_ok"]
